@@ -23,7 +23,7 @@
   Not proved here: that the non-NaN cells are the storage values of that key (checked by the correspondence and the
   direct oracle `table-value` only).
 -/
-import SH.Lemmas.TableOrder
+import SH.Lemmas.TablePage
 
 namespace SH.C25
 open SH.Table
@@ -528,6 +528,134 @@ example : less ⟨10, [-6000000000000000000], 0⟩ ⟨10, [6000000000000000000],
     less ⟨10, [6000000000000000000], 0⟩ ⟨10, [-6000000000000000000], 0⟩ = false ∧
     less ⟨10, [-9223372036854775808], 0⟩ ⟨10, [9223372036854775807], 0⟩ = true := by decide
 
+/-! ## the page is the first `limit` rows of the window in the requested total order -/
+
+/-- **page_is_first_limit_rows_in_requested_order (one requested function, all its LODs).** Under the storage-order
+    contract (`VisitSorted`: the answers, passed in ascending LOD order, come sorted by (time, group-by keys) in the
+    requested direction — the order the generated ORDER BY text asks the storage for), with rows inside their LODs and
+    times ≥ 0, for every request, LOD split, markers, direction and limit:
+    (1) the rows the pass considers are exactly ALL stored rows, over all LODs, that lie in the requested window;
+    (2) they are considered in the requested total order (strictly increasing, so there is one such enumeration);
+    (3) the page is its first `limit` elements, so (4) every row on the page precedes every window row that is not. -/
+theorem page_is_first_limit_rows_in_requested_order (q : Req) (answers : List (Lod × Option (List (List Row))))
+    (hs : VisitSorted q answers) (hl : InLod answers) (h0 : ∀ r ∈ storedRows answers, 0 ≤ r.key.time) :
+    (∀ r, r ∈ candRows q (dir q.win.fromEnd answers) ↔ r ∈ storedRows answers ∧ inRange q.win r = true) ∧
+    (candRows q (dir q.win.fromEnd answers)).Pairwise (rowBefore q) ∧
+    pageRows q (dir q.win.fromEnd answers) = (candRows q (dir q.win.fromEnd answers)).take q.limit.toNat ∧
+    (∀ a ∈ pageRows q (dir q.win.fromEnd answers),
+      ∀ b ∈ (candRows q (dir q.win.fromEnd answers)).drop q.limit.toNat, rowBefore q a b) := by
+  have hw := window_sorted q answers hs
+  refine ⟨window_complete q answers hl h0, hw, rfl, ?_⟩
+  have hs' := hw
+  rw [← List.take_append_drop q.limit.toNat (candRows q (dir q.win.fromEnd answers))] at hs'
+  exact (List.pairwise_append.1 hs').2.2
+
+theorem pairwise_mem_total {α} (R : α → α → Prop) : ∀ (l : List α), l.Pairwise R →
+    ∀ a ∈ l, ∀ b ∈ l, a ≠ b → R a b ∨ R b a := by
+  intro l
+  induction l with
+  | nil => intro _ a ha; simp at ha
+  | cons x xs ih =>
+    intro hp a ha b hb hne
+    have p := List.pairwise_cons.1 hp
+    simp only [List.mem_cons] at ha hb
+    rcases ha with rfl | ha <;> rcases hb with rfl | hb
+    · exact absurd rfl hne
+    · exact Or.inl (p.1 b hb)
+    · exact Or.inr (p.1 a ha)
+    · exact ih p.2 a ha b hb hne
+
+/-- **the table is the page, in the requested order (the property's sentence).** For every request, LOD split, markers,
+    direction and limit, under the storage-order contract for every requested function: if the pages of all requested
+    functions hold the same keys `P` (always so for one function; for several it is what a GROUP BY storage returns,
+    the functions differing in values only), then after the final sort the table rows are exactly `P`, in that order —
+    i.e. the first `limit` rows of the window over all LODs in the requested total order — and has-more is set iff the
+    window of some function holds more than `limit` rows. -/
+theorem table_is_first_limit_rows_in_requested_order (q : Req) (lods : List Lod)
+    (store : List (List (Option (List (List Row))))) (rows : List ORow) (more : Bool) (P : List Key)
+    (hne : todoOf q lods store ≠ [])
+    (hs : ∀ p ∈ q.cols.zip store, VisitSorted q (lods.zip p.2) ∧ InLod (lods.zip p.2) ∧
+      ∀ r ∈ storedRows (lods.zip p.2), 0 ≤ r.key.time)
+    (hP : ∀ t ∈ todoOf q lods store, (pageRows q t.2).map (·.key) = P)
+    (h : getTable .fixed q lods store = some (rows, more)) :
+    rows.map (·.key) = P ∧
+    (more = true ↔ ∃ t ∈ todoOf q lods store, q.limit.toNat < (candRows q t.2).length) := by
+  -- every work item is `dir fromEnd (lods.zip answers)` of a contract-abiding answer list
+  have htodo : ∀ t ∈ todoOf q lods store, ∃ p ∈ q.cols.zip store, t.2 = dir q.win.fromEnd (lods.zip p.2) := by
+    intro t ht
+    simp only [todoOf, List.mem_map] at ht
+    obtain ⟨p, hp, rfl⟩ := ht
+    exact ⟨p, hp, rfl⟩
+  have hpos : ∀ t ∈ todoOf q lods store, ∀ r ∈ candRows q t.2, 0 ≤ r.key.time := by
+    intro t ht r hr
+    obtain ⟨p, hp, e⟩ := htodo t ht
+    obtain ⟨_, hl, h0⟩ := hs p hp
+    rw [e] at hr
+    exact h0 r ((window_complete q _ hl h0 r).1 hr).1
+  have htp := table_page q lods store rows more hpos h
+  refine ⟨?_, htp.1⟩
+  -- members
+  obtain ⟨t0, ht0⟩ := List.exists_mem_of_ne_nil _ hne
+  have hmem : ∀ k, k ∈ rows.map (·.key) ↔ k ∈ P := by
+    intro k
+    rw [htp.2 k]
+    constructor
+    · rintro ⟨t, ht, hk⟩; rw [hP t ht] at hk; exact hk
+    · intro hk; exact ⟨t0, ht0, by rw [hP t0 ht0]; exact hk⟩
+  -- P is strictly sorted
+  have hPs : P.Pairwise (keyBefore q) := by
+    obtain ⟨p, hp, e⟩ := htodo t0 ht0
+    obtain ⟨hv, _, _⟩ := hs p hp
+    have hw := window_sorted q _ hv
+    rw [← e] at hw
+    have : (pageRows q t0.2).Pairwise (rowBefore q) := List.Pairwise.sublist (List.take_sublist _ _) hw
+    rw [← hP t0 ht0, List.pairwise_map]
+    exact this
+  -- the table is strictly sorted too
+  have hnd := rows_unique_by_time_tags .fixed q lods store rows more h
+  have hsorted : (rows.map (·.key)).Pairwise (keyBefore q) := by
+    obtain ⟨r, _, rfl, _⟩ := getTable_some .fixed q lods store rows more h
+    have h1 := sortRows_sorted q r.1
+    rw [List.pairwise_map]
+    have h2 : (sortRows q r.1).Pairwise (fun a b => a.key ≠ b.key) := by
+      have := hnd; rw [List.Nodup, List.pairwise_map] at this; exact this
+    refine List.Pairwise.imp_of_mem ?_ (h1.and h2)
+    intro a b ha hb hab
+    have hka : a.key ∈ P := (hmem _).1 (by simp only [List.mem_map]; exact ⟨a, ha, rfl⟩)
+    have hkb : b.key ∈ P := (hmem _).1 (by simp only [List.mem_map]; exact ⟨b, hb, rfl⟩)
+    rcases pairwise_mem_total _ P hPs a.key hka b.key hkb hab.2 with g | g
+    · exact g
+    · exact absurd g hab.1
+  exact eq_of_sorted_same_mem (keyBefore q) (keyBefore_irrefl q) (keyBefore_trans q) _ _ hsorted hPs hmem
+
+/-- non-vacuity: a descending request over two LODs, two grouped-tag values per second, limit 3 of 4 window rows; the
+    storage answers follow the contract (each second's rows descending); the table is rows (11,tag 2), (11,tag 1), (10,tag 2) -/
+def reqOrd : Req := { win := { wAll with fromEnd := true }, limit := 3, gby := [0], bySkey := false, cols := [[0]] }
+def storeOrd : List (List (Option (List (List Row)))) :=
+  [[some [[rowT 10 2, rowT 10 1]], some [[rowT 11 2, rowT 11 1]]]]
+def lodsOrd : List Lod := [⟨10, 11⟩, ⟨11, 12⟩]
+
+example : todoOf reqOrd lodsOrd storeOrd ≠ [] ∧
+    (∀ p ∈ reqOrd.cols.zip storeOrd, VisitSorted reqOrd (lodsOrd.zip p.2) ∧ InLod (lodsOrd.zip p.2) ∧
+      ∀ r ∈ storedRows (lodsOrd.zip p.2), 0 ≤ r.key.time) ∧
+    (∀ t ∈ todoOf reqOrd lodsOrd storeOrd, (pageRows reqOrd t.2).map (·.key) = [⟨11, [2], 0⟩, ⟨11, [1], 0⟩, ⟨10, [2], 0⟩]) := by
+  unfold VisitSorted InLod; decide
+example : (getTable .fixed reqOrd lodsOrd storeOrd).map (fun r => (r.1.map (fun o => o.key), r.2)) =
+    some ([⟨11, [2], 0⟩, ⟨11, [1], 0⟩, ⟨10, [2], 0⟩], true) := by decide
+/-- the storage-order contract stated on the answers themselves (ascending LODs, ascending time groups, the rows of one
+    time group in the requested order) implies the visiting-order form used above -/
+theorem storage_contract_suffices (q : Req) (answers : List (Lod × Option (List (List Row))))
+    (h : StorageContract q answers) : VisitSorted q answers := visitSorted_of_contract q answers h
+
+example : ∀ p ∈ reqOrd.cols.zip storeOrd, StorageContract reqOrd (lodsOrd.zip p.2) := by
+  unfold StorageContract; decide
+/-- the contract is needed: with the rows of a second in ascending order (what the ORDER BY text before e9888cce asked
+    for) the page of the same request is cut wrongly — (10, tag 1) instead of (10, tag 2) -/
+example : (getTable .fixed reqOrd lodsOrd [[some [[rowT 10 1, rowT 10 2]], some [[rowT 11 1, rowT 11 2]]]]).map
+    (fun r => r.1.map (fun o => o.key)) = some [⟨11, [2], 0⟩, ⟨11, [1], 0⟩, ⟨10, [1], 0⟩] := by decide
+example : ¬ VisitSorted reqOrd (lodsOrd.zip [some [[rowT 10 1, rowT 10 2]], some [[rowT 11 1, rowT 11 2]]]) := by
+  unfold VisitSorted; decide
+
 /-! ## old code (before 8d8821bd): the shared backing array of rowRepr.Tags -/
 
 /-- two handler-whats; the first answer holds the rows with tag 1 and 3, the second answer only a row with tag 2 -/
@@ -544,5 +672,16 @@ example : (getTableAliased reqAlias [⟨10, 11⟩] storeAlias).map (fun l => l.a
 /-- the fixed code on the same input: sorted, and (by `reprOf`) every row's marker is made of its own tags -/
 example : (getTable .fixed reqAlias [⟨10, 11⟩] storeAlias).map (fun r => r.1.map (fun o => o.key.tags)) =
     some [[1], [2], [3]] := by decide
+
+/-! ## old code (before 8d8821bd): appendRowValues indexed `qry` with the column index -/
+
+/-- `qry` holds at most 7 distinct selectors; the old `w.qry[i].Argument` with `i` ranging over the columns of the
+    handler-what panicked (index out of range) as soon as a handler-what with more than 7 columns got a row -/
+def oldPanics (q : Req) (todo : List (List Nat × List (Lod × Option (List (List Row))))) : Bool :=
+  todo.any (fun t => decide (7 < t.1.length) && !(passRows .old q t.2 0).isEmpty)
+
+/-- count, count_sec, count_raw, sum, sum_sec, sum_raw, min, max: 4 selectors, 8 columns in one handler-what -/
+example : oldPanics { reqPage with cols := [[0, 0, 0, 1, 1, 1, 2, 3]] }
+    (todoOf { reqPage with cols := [[0, 0, 0, 1, 1, 1, 2, 3]] } lodsPage storePage) = true := by decide
 
 end SH.C25
